@@ -54,6 +54,16 @@ def linear(e, subst=None, env=None, depth=0, wrap=None):
                 return _scale(linear(e.right, subst, env, depth, wrap), cl)
             if cr is not None:
                 return _scale(linear(e.left, subst, env, depth, wrap), cr)
+            # distribute a product over a sum (both sides expanded): terms become sorted products
+            if wrap is None and l and r and len(l) * len(r) <= 64:
+                out = {}
+                for a, ca in l.items():
+                    for b, cb in r.items():
+                        fa = [] if a == "1" else a.split("*")
+                        fb = [] if b == "1" else b.split("*")
+                        key = "*".join(sorted(fa + fb)) or "1"
+                        out[key] = out.get(key, 0.0) + ca * cb
+                return {t: c for t, c in out.items() if abs(c) > 1e-12}
         if isinstance(e.op, ast.Div):
             r = linear(e.right, subst, env, depth, None)
             cr = _const(r)
@@ -75,7 +85,11 @@ def linear(e, subst=None, env=None, depth=0, wrap=None):
             return linear(e.func.value, subst, env, depth, "sum(%s)" if wrap is None else wrap)
         if f in ("float", "np.array", "numpy.array") and len(e.args) == 1:
             return linear(e.args[0], subst, env, depth, wrap)
-    return {(wrap % txt) if wrap else txt: 1.0}
+    atom = txt.replace(" ", "")
+    if any(c in atom for c in "+-*/") and not (atom.endswith(")") and atom.count("(") == atom.count(")") and "(" in atom
+                                                  and not any(c in atom[:atom.index("(")] for c in "+-*/")):
+        atom = "(" + atom + ")"
+    return {(wrap % atom) if wrap else atom: 1.0}
 
 
 def lin_equal(a, b):
